@@ -190,6 +190,13 @@ func c11Gen(tier string, r *rand.Rand) []Case {
 			}
 			v("length", c, "sha2_256", fmt.Sprintf("len:%d", l), 8)
 		}
+		// the hasher is judged first, whatever the signature looks like: wrong-length signatures with
+		// refused hashers
+		for _, h := range []string{"nil", "kmac128_31", "kmac128_1"} {
+			for _, l := range []int{0, 1, 32, 63, 65, 128} {
+				v("length-and-hasher-guard", c, h, fmt.Sprintf("len:%d", l), 8)
+			}
+		}
 		// hasher guards on Verify and Sign
 		for _, h := range []string{"nil", "kmac128_16", "kmac128_31", "kmac128_1"} {
 			v("hasher-guard", c, h, "none", 8)
